@@ -67,7 +67,9 @@ def generate_voxel_grid(bbox, szval, use_cubes=False):
 
     # It is possible to use cubes instead of cuboids
     if use_cubes:
-        min_val = min(*steps)
+        # A flat bounding box has a zero step in that direction: the cube size is the smallest non-zero step
+        nonzero = [s for s in steps if s > 0.0]
+        min_val = min(nonzero) if nonzero else 0.0
         steps = [min_val for _ in range(0, 3)]
 
     # Find range in each direction
